@@ -36,6 +36,7 @@ pub fn compose_table(lang: &str) -> Vec<(&'static str, &'static str, char)> {
         ],
         "ru" => vec![("Ёё", "Ее", '\u{308}')],
         "xk" => vec![("がぎば", "かきは", '\u{3099}'), ("ぱ", "は", '\u{309a}'), ("ヴ", "ウ", '\u{3099}'), ("\u{fb2a}", "ש", '\u{5c1}')],
+        "xc" => vec![("ÄÖÜäöü", "AOUaou", '\u{308}'), ("Éé", "Ee", '\u{301}')],
         _ => vec![],
     }
 }
@@ -44,6 +45,7 @@ pub fn compose_table(lang: &str) -> Vec<(&'static str, &'static str, char)> {
 pub fn singleton_table(lang: &str) -> Vec<(char, char)> {
     match lang {
         "xk" => vec![('\u{212b}', '\u{c5}'), ('\u{1f71}', '\u{3ac}')],
+        "xc" => vec![('\u{212b}', '\u{c5}')],
         _ => vec![],
     }
 }
@@ -54,8 +56,15 @@ pub fn expanding_table(lang: &str) -> Vec<(char, &'static str)> {
         "de" => vec![('ẞ', "SS"), ('ß', "ss")],
         "fr" => vec![('Æ', "AE"), ('æ', "ae"), ('Œ', "OE"), ('œ', "oe"), ('Ø', "OE"), ('ø', "oe")],
         "xk" => vec![('ゟ', "より")],
+        // the reduce-only language: every entry of its reduce table (two of them do not lengthen the text)
+        "xr" => vec![('ß', "ss"), ('ẞ', "SS"), ('é', "e"), ('É', "E"), ('ø', "oe"), ('Ø', "OE")],
         _ => vec![],
     }
+}
+
+/// Does the language fold the letters it composes to their base letters? (Not "xc": compositions only.)
+pub fn folds_composed(lang: &str) -> bool {
+    lang != "xc"
 }
 
 #[derive(Clone, Debug)]
@@ -97,9 +106,11 @@ pub fn compose(lang: &str, input: &[char]) -> Vec<char> {
 
 /// Accent folding of one (composed) character: `None` when the language leaves it alone.
 pub fn fold(lang: &str, c: char) -> Option<String> {
-    for a in accents(lang) {
-        if a.composed == c {
-            return Some(a.base.to_string());
+    if folds_composed(lang) {
+        for a in accents(lang) {
+            if a.composed == c {
+                return Some(a.base.to_string());
+            }
         }
     }
     for (x, to) in expanding_table(lang) {
